@@ -518,6 +518,27 @@ pub fn run_case(prog: &Vec<Vec<Step>>, hist: &[Act]) -> Result<(), Fail> {
         // every failed check is reported (C18), whatever else happens to the task
         let failed_checks = ev.iter().filter(|e| !e.start && e.verdict == "error").count();
         if errs != failed_checks { fail!("C18", "C18.bounded.check_errors_are_reported", "{} checks failed with an error during the bottom-up build, the session reports {} dependency check errors", failed_checks, errs); }
+        // scheduling follows the verdict of the dependency's own checker: not consistent (or failed) <=> the task is scheduled: `schedule`
+        // is the next event, or the task is already waiting (scheduled earlier in this build and not executed yet)
+        {
+          let mut waiting_now: Vec<String> = vec![];
+          for (i, e) in ev.iter().enumerate() {
+            if !e.start && (e.kind == "check_read" || e.kind == "check_req") {
+              let next_is_schedule = ev.get(i + 1).map(|n| n.kind == "schedule" && n.subject == e.subject).unwrap_or(false);
+              let scheduled = next_is_schedule || waiting_now.contains(&e.subject);
+              if e.verdict == "error" && !scheduled { fail!("C18", "C18.bounded.failed_check_schedules_the_task", "the check of a dependency of {} failed with an error, but the task was not scheduled", e.subject); }
+              if e.verdict == "inconsistent" && !scheduled { fail!("C09", "C09.bounded.inconsistent_dependency_schedules_its_task", "a dependency of {} was reported inconsistent, but the task was not scheduled", e.subject); }
+              if e.verdict == "consistent" && next_is_schedule { fail!("C04", "C04.bounded.consistent_dependency_does_not_schedule", "a dependency of {} was reported consistent, yet the task was scheduled", e.subject); }
+            }
+            if e.kind == "schedule" {
+              let prev_ok = i > 0 && !ev[i - 1].start && (ev[i - 1].kind == "check_read" || ev[i - 1].kind == "check_req") && ev[i - 1].subject == e.subject && ev[i - 1].verdict != "consistent";
+              if !prev_ok { fail!("C04", "C04.bounded.scheduled_only_for_an_inconsistent_dependency", "{} was scheduled without a preceding inconsistent check of one of its dependencies", e.subject); }
+              if !ev[i..].iter().any(|x| x.start && x.kind == "execute" && x.subject == e.subject) && !ev[..i].iter().any(|x| x.start && x.kind == "execute" && x.subject == e.subject) { fail!("C04", "C04.bounded.scheduled_task_is_executed", "{} was scheduled but never executed in this build", e.subject); }
+              if !waiting_now.contains(&e.subject) { waiting_now.push(e.subject.clone()); }
+            }
+            if e.kind == "execute" && e.start { waiting_now.retain(|w| *w != e.subject); }
+          }
+        }
         // C09 "... always does when its owner is validated": a change REPORTED to the bottom-up build validates every recorded read and
         // write dependency on that resource -- each such task is checked inside the bracket of that report (or is already waiting)
         {
@@ -565,27 +586,6 @@ pub fn run_case(prog: &Vec<Vec<Step>>, hist: &[Act]) -> Result<(), Fail> {
               }
             }
             i += 1;
-          }
-        }
-        // scheduling follows the verdict of the dependency's own checker: not consistent (or failed) <=> the task is scheduled: `schedule`
-        // is the next event, or the task is already waiting (scheduled earlier in this build and not executed yet)
-        {
-          let mut waiting_now: Vec<String> = vec![];
-          for (i, e) in ev.iter().enumerate() {
-            if !e.start && (e.kind == "check_read" || e.kind == "check_req") {
-              let next_is_schedule = ev.get(i + 1).map(|n| n.kind == "schedule" && n.subject == e.subject).unwrap_or(false);
-              let scheduled = next_is_schedule || waiting_now.contains(&e.subject);
-              if e.verdict == "error" && !scheduled { fail!("C18", "C18.bounded.failed_check_schedules_the_task", "the check of a dependency of {} failed with an error, but the task was not scheduled", e.subject); }
-              if e.verdict == "inconsistent" && !scheduled { fail!("C09", "C09.bounded.inconsistent_dependency_schedules_its_task", "a dependency of {} was reported inconsistent, but the task was not scheduled", e.subject); }
-              if e.verdict == "consistent" && next_is_schedule { fail!("C04", "C04.bounded.consistent_dependency_does_not_schedule", "a dependency of {} was reported consistent, yet the task was scheduled", e.subject); }
-            }
-            if e.kind == "schedule" {
-              let prev_ok = i > 0 && !ev[i - 1].start && (ev[i - 1].kind == "check_read" || ev[i - 1].kind == "check_req") && ev[i - 1].subject == e.subject && ev[i - 1].verdict != "consistent";
-              if !prev_ok { fail!("C04", "C04.bounded.scheduled_only_for_an_inconsistent_dependency", "{} was scheduled without a preceding inconsistent check of one of its dependencies", e.subject); }
-              if !ev[i..].iter().any(|x| x.start && x.kind == "execute" && x.subject == e.subject) && !ev[..i].iter().any(|x| x.start && x.kind == "execute" && x.subject == e.subject) { fail!("C04", "C04.bounded.scheduled_task_is_executed", "{} was scheduled but never executed in this build", e.subject); }
-              if !waiting_now.contains(&e.subject) { waiting_now.push(e.subject.clone()); }
-            }
-            if e.kind == "execute" && e.start { waiting_now.retain(|w| *w != e.subject); }
           }
         }
         // order: a scheduled task is never popped for execution while a scheduled task it (transitively) requires is still waiting
